@@ -10,6 +10,7 @@ package main
 import (
 	"fmt"
 	"go/token"
+	"go/types"
 
 	"golang.org/x/tools/go/ssa"
 )
@@ -142,4 +143,107 @@ func ruleFrame(p *Prog, r *Report, sp *ssa.Package) {
 			}
 		}
 	}
+}
+
+// ---- BOXCOPY: the bookkeeping of a box lives in one place ----------------------------------------------------
+
+// ruleBoxCopy: a box struct is never duplicated out of somebody else's box. A whole-struct load through a pointer
+// that is not one of the function's own locals (`*b` of a *box parameter, a box field of another object) makes a
+// copy whose remain is then charged instead of the original's: the enclosing boxes are charged through the outer
+// pointer while the original still believes its payload is unread. Loads of a function's own local (returning the
+// box it just created, passing it on by value to be stored) are creation, not duplication.
+func ruleBoxCopy(p *Prog, r *Report, sp *ssa.Package) {
+	n := 0
+	for _, f := range pkgFns(sp, p) {
+		eachInstr(f, func(_ *ssa.BasicBlock, _ int, in ssa.Instruction) {
+			u, ok := in.(*ssa.UnOp)
+			if !ok || u.Op != token.MUL {
+				return
+			}
+			nt, ok := u.Type().(*types.Named)
+			if !ok || nt.Obj().Name() != "box" || nt.Obj().Pkg() == nil || nt.Obj().Pkg().Name() != "isobmff" {
+				return
+			}
+			n++
+			key := fmt.Sprintf("%s | copy of box %s", fnName(f), shortVal(u.X))
+			at := p.posStr(instrPos(u))
+			if _, local := u.X.(*ssa.Alloc); local {
+				r.OK("BOXCOPY", key, at, "the function's own local (a box it created or received by value)")
+				return
+			}
+			// a copy that is only read (isType, the zerolog marshaler) is harmless; one that is consumed from is not
+			bad := ""
+			for _, rf := range refs(u) {
+				switch x := rf.(type) {
+				case ssa.CallInstruction:
+					args := callArgs(x.Common())
+					for _, g := range p.Callees(x) {
+						for k, a := range args {
+							if a == ssa.Value(u) && k < len(g.Params) && mutatesBoxParam(p, g, k, 0) {
+								bad = fmt.Sprintf("the copy is handed to %s, which consumes from it", fnName(g))
+							}
+						}
+					}
+				case *ssa.Store:
+					if x.Val == ssa.Value(u) {
+						bad = "the copy is stored and lives on beside the original"
+					}
+				case *ssa.MakeInterface, *ssa.DebugRef, *ssa.Field:
+				default:
+					bad = fmt.Sprintf("the copy is used by %T", rf)
+				}
+			}
+			if bad != "" {
+				r.Bad("BOXCOPY", key, at, "a box owned by someone else is copied by value and "+bad+": what the copy consumes is not charged to the original")
+			} else {
+				r.OK("BOXCOPY", key, at, "read-only copy (compared or logged)")
+			}
+		})
+	}
+	r.Extra("boxcopy_loads", n)
+}
+
+// mutatesBoxParam: g's by-value box parameter #k is written or handed (by address) to something that may write it.
+func mutatesBoxParam(p *Prog, g *ssa.Function, k, depth int) bool {
+	if g.Blocks == nil || depth > 4 || k >= len(g.Params) {
+		return depth > 4
+	}
+	prm := g.Params[k]
+	mut := false
+	var cells []ssa.Value
+	for _, rf := range refs(prm) {
+		if st, ok := rf.(*ssa.Store); ok && st.Val == ssa.Value(prm) {
+			cells = append(cells, st.Addr)
+		}
+		if ci, ok := rf.(ssa.CallInstruction); ok {
+			args := callArgs(ci.Common())
+			for _, h := range p.Callees(ci) {
+				for j, a := range args {
+					if a == ssa.Value(prm) && mutatesBoxParam(p, h, j, depth+1) {
+						mut = true
+					}
+				}
+			}
+		}
+	}
+	for _, c := range cells {
+		for _, rf := range refs(c) {
+			switch x := rf.(type) {
+			case *ssa.FieldAddr:
+				for _, r2 := range refs(x) {
+					if st, ok := r2.(*ssa.Store); ok && st.Addr == ssa.Value(x) {
+						mut = true
+					}
+				}
+			case ssa.CallInstruction:
+				// &copy passed on: pointer-receiver methods (Peek, Discard, close, …) consume through it
+				for _, a := range callArgs(x.Common()) {
+					if a == c {
+						mut = true
+					}
+				}
+			}
+		}
+	}
+	return mut
 }
